@@ -120,6 +120,17 @@ pub fn cluster_properties() -> Vec<PropertyConfig> {
             sweep_interior: 0,
         },
         PropertyConfig {
+            id: "C15",
+            profiles: &[Priority, Priority, Priority, General],
+            quick_runs: 20_000,
+            thorough_runs: 600_000,
+            triggers: &["c15_rounds_with_dispatch_and_leftover"],
+            rule: "priority profile (<=3 worker shapes, single-variant single-node classes, 2-4 priority levels, workers made partly busy by the preceding history); the statement is evaluated literally on every scheduling round whose ready queue is inside the property's domain (no multi-node / multi-variant request ready, <= 8 levels, solve reported optimal, no prefilled/retracting task); non-trivial = a round dispatched something and left something ready; violations are grouped by shape class w<#workers<=3>-c<#classes<=3>-het|hom-busy|idle",
+            force_journal: None,
+            sweep_one_in: None,
+            sweep_interior: 0,
+        },
+        PropertyConfig {
             id: "C10",
             profiles: &[Restore, Restore, Restore, Prune],
             quick_runs: 30_000,
@@ -292,6 +303,31 @@ pub struct KnownFinding {
     pub text: String,
 }
 
+/// `*` in a known signature matches any run of characters (used for families of shapes)
+pub fn signature_matches(pattern: &str, signature: &str) -> bool {
+    if !pattern.contains('*') {
+        return pattern == signature;
+    }
+    let parts: Vec<&str> = pattern.split('*').collect();
+    let mut rest = signature;
+    for (i, part) in parts.iter().enumerate() {
+        if i == 0 {
+            if !rest.starts_with(part) {
+                return false;
+            }
+            rest = &rest[part.len()..];
+        } else if i == parts.len() - 1 {
+            return rest.ends_with(part);
+        } else {
+            match rest.find(part) {
+                Some(pos) => rest = &rest[pos + part.len()..],
+                None => return false,
+            }
+        }
+    }
+    true
+}
+
 pub fn load_known_findings(path: &Path) -> Vec<KnownFinding> {
     let Ok(s) = std::fs::read_to_string(path) else {
         return Vec::new();
@@ -456,7 +492,7 @@ pub fn check_cluster(args: &CheckArgs) -> i32 {
     for (sig, (count, first, msg)) in &by_sig {
         if let Some(k) = known
             .iter()
-            .find(|k| k.property == cfg.id && k.signature == *sig)
+            .find(|k| k.property == cfg.id && signature_matches(&k.signature, sig))
         {
             println!(
                 "KNOWN-FINDING: property={} signature={} {} ({} runs, e.g. seed {})",
